@@ -270,7 +270,7 @@ def cond_pool():
     return C01.truth_pool()
 
 
-COND_SHAPES = ('jumpif v', 'jumpif !v', 'jumpif v && 1', 'jumpif v || 0', 'backward jumpif v once')
+COND_SHAPES = ('jumpif v', 'jumpif !v', 'jumpif v && 1', 'jumpif v || 0', 'backward jumpif v once', 'jumpif abs(v) - an expression-only built-in is NOT available in a script', 'return max(v, 1) - same')
 
 
 def build_cond(shape):
@@ -283,6 +283,10 @@ def build_cond(shape):
         e = {'binary': {'op': '&&', 'left': gv, 'right': {'number': 1}}}
     elif shape == 3:
         e = {'binary': {'op': '||', 'left': gv, 'right': {'number': 0}}}
+    elif shape == 5:
+        e = {'function': {'name': 'abs', 'args': [gv]}}
+    elif shape == 6:
+        return {'statements': [copy.deepcopy(jm.P[0]), {'return': {'expr': {'function': {'name': 'max', 'args': [gv, {'number': 1}]}}}}]}
     else:
         return {'statements': [copy.deepcopy(jm.P[7]), copy.deepcopy(jm.P[2]), copy.deepcopy(jm.P[0]),
                                {'jump': {'label': 'A', 'expr': {'binary': {'op': '&&', 'left': {'binary': {'op': '<', 'left': {'variable': 'x'}, 'right': {'number': 2}}}, 'right': gv}}}},
@@ -308,6 +312,38 @@ def fam_cond(arg):
     return acc.result()
 
 
+# ---------------------------------------------------------------- a function statement inside a function body (schema-valid, hand-built)
+
+def nested_models():
+    log = lambda t: {'expr': {'expr': {'function': {'name': 'systemLog', 'args': [{'string': t}]}}}}  # noqa: E731
+    call = lambda n: {'expr': {'expr': {'function': {'name': n, 'args': []}}}}  # noqa: E731
+    inner = lambda t: {'function': {'name': 'gg', 'statements': [log(t), {'return': {'expr': {'string': t}}}]}}  # noqa: E731
+    outer = lambda body: {'function': {'name': 'ff', 'statements': body}}  # noqa: E731
+    return [
+        ('defined-inside-then-called-globally', [outer([inner('in'), log('ff')]), call('ff'), call('gg')]),
+        ('overrides-a-global-of-the-same-name', [inner('global'), outer([inner('in'), call('gg')]), call('gg'), call('ff'), call('gg')]),
+        ('called-before-the-outer-ran', [outer([inner('in')]), call('gg')]),
+        ('defined-twice-by-two-calls', [outer([inner('in'), {'expr': {'name': 'x', 'expr': jm.X_PLUS_1}}]), call('ff'), call('ff'), call('gg'), {'return': {'expr': {'variable': 'x'}}}]),
+        ('parameter-named-like-the-inner-function', [{'function': {'name': 'ff', 'args': ['gg'], 'statements': [inner('in'), log('ff')]}}, {'expr': {'expr': {'function': {'name': 'ff', 'args': [{'number': 1}]}}}}, call('gg')]),
+    ]
+
+
+def check_nested(case, acc):
+    name, sts = nested_models()[case['i']]
+    n = check_model(None, dict(case, name=name), acc, model={'statements': copy.deepcopy(sts)})
+    acc.nontrivial += 1
+    return n
+
+
+def fam_nested(arg):
+    acc = Acc('nested_function')
+    for i in arg:
+        acc.cases += 1
+        check_nested({'i': i}, acc)
+    acc.sample({'models': [m[0] for m in nested_models()]})
+    return acc.result()
+
+
 def families(tier):
     load_impl()
     maxlen = 5 if tier == 'quick' else 6
@@ -327,6 +363,7 @@ def families(tier):
     pairs = [(a, b) for a in range(nb) for b in range(nb) if a != b]
     npool = len(cond_pool())
     return [
+        Family('nested_function', fam_nested, [list(range(len(nested_models())))], 'hand-built models with a function statement inside a function body: it binds a GLOBAL function when executed', expected=len(nested_models())),
         Family('function2', fam_f2, split(pairs, 24), f'two function statements of the same name with different bodies ({nb} bodies, ordered pairs) in every sequence of length 2..4 over {{F1, F2, call, log, return x}} containing both; each also followed by a second model (definitions swapped) on the same globals',
                expected=len(pairs) * f2_count()),
         Family('conditions', fam_cond, [[i] for i in range(npool)], f'a value of each kind ({npool} values of all nine types incl. empty object/array/string, zeros) as jump condition: plain, negated, under && and ||, and in a backward jump', expected=npool * len(COND_SHAPES)),
@@ -339,7 +376,7 @@ def families(tier):
     ]
 
 
-_CHECKS = {'plain': check_plain, 'function': check_fn, 'parsed': check_parsed, 'function2': check_f2, 'conditions': check_cond}
+_CHECKS = {'nested_function': check_nested, 'plain': check_plain, 'function': check_fn, 'parsed': check_parsed, 'function2': check_f2, 'conditions': check_cond}
 
 
 def replay(family, case):
